@@ -83,6 +83,7 @@ macro_rules! num_harness {
         #[kani::stub(<num_bigint::BigInt as core::ops::AddAssign<isize>>::add_assign, bigint_add_assign_isize_stub)]
         #[kani::stub(<num_bigint::BigInt as core::ops::MulAssign<isize>>::mul_assign, bigint_mul_assign_isize_stub)]
         #[kani::stub(<num_bigint::BigInt as core::ops::Shl<u32>>::shl, bigint_shl_u32_stub)]
+        #[kani::stub(<num_bigint::BigInt as num_traits::Pow<usize>>::pow, bigint_pow_usize_stub)]
         fn $name() {
             tag_init();
             $body
@@ -540,12 +541,60 @@ fn expt_negative_body(r: isize) {
 num_harness!(num_expt_minus_3, 8, { expt_negative_body(-3) });
 num_harness!(num_expt_minus_2, 8, { expt_negative_body(-2) });
 
-// C07: a negative power whose magnitude overflows the machine word must not panic
+// num-bigint's `BigInt::pow(usize)` is not executed: the stub records that the big-integer path
+// was taken and returns a marker that cannot fit a machine word.
+static mut POW_SEEN: Option<(i128, usize)> = None;
+fn bigint_pow_usize_stub(this: BigInt, e: usize) -> BigInt {
+    unsafe { POW_SEEN = Some((this.to_i128().unwrap_or(0), e)) };
+    core::mem::forget(this);
+    BigInt::from(i128::MAX)
+}
+
+// C07: a negative power whose magnitude overflows the machine word must not panic; it has to
+// continue with big integers
 num_harness!(num_expt_minus_30_total, 8, {
     let l: isize = kani::any();
     kani::assume(l >= -12 && l <= 12 && l != 0);
     let res = expt(&IntV(l), &IntV(-30));
     kani::cover!(l == 10, "ten to the minus thirty");
-    kani::cover!(matches!(res, Ok(_)), "a value came back");
+    kani::cover!(l == -2, "fits a machine word but not 32 bits");
+    let seen = unsafe { POW_SEEN };
+    // |l|^30 fits the machine word only for |l| <= 4; only |l| = 1, 2 (2^30) fit 32 bits
+    let small = l >= -2 && l <= 2;
+    match &res {
+        Ok(_) => {
+            vassert!(small || seen == Some((l as i128, 30)), "(expt l -30) left the machine range without continuing with big integers");
+        }
+        Err(_) => {
+            vassert!(false, "(expt l -30) of a non-zero integer returned an error");
+        }
+    }
+    core::mem::forget(res);
+});
+
+// ------------------------------------------------------------------ expt: reciprocal of an exact integer
+// (expt l -1) for every non-zero l in the 32-bit range: the result is exactly 1/l in canonical
+// form (an integer for l = 1, -1; otherwise a fraction in lowest terms with a positive denominator).
+num_harness!(num_expt_reciprocal, 6, {
+    let l: isize = kani::any();
+    kani::assume(l != 0 && l >= i32::MIN as isize + 1 && l <= i32::MAX as isize);
+    let res = expt(&IntV(l), &IntV(-1));
+    kani::cover!(l < -1, "negative base");
+    kani::cover!(l == -1, "minus one");
+    kani::cover!(l > 1, "positive base");
+    match &res {
+        Ok(IntV(v)) => {
+            vassert!((l == 1 || l == -1) && *v == l, "1/l came back as an integer although it is not one");
+        }
+        Ok(Rational(r)) => {
+            vassert!(*r.denom() > 0, "non-canonical exact rational: the denominator is not positive");
+            vassert!(*r.denom() != 1, "non-canonical exact rational: an integer stored as a fraction");
+            vassert!((*r.numer() as i128) * (l as i128) == *r.denom() as i128, "(expt l -1) is not 1/l");
+        }
+        Ok(_) => assert!(false, "(expt l -1) of a small integer is neither an integer nor a small rational"),
+        Err(_) => {
+            vassert!(false, "(expt l -1) of a non-zero integer returned an error");
+        }
+    }
     core::mem::forget(res);
 });
